@@ -213,7 +213,7 @@ func runCfgGun(f []string) string {
 	case <-time.After(5 * time.Second):
 		return "hang"
 	}
-	return samplesLine(ag.samples)
+	return samplesLine(ag.samples, ag.snaps)
 }
 
 func runGJSON(f []string) string {
@@ -273,8 +273,8 @@ func runGJSON(f []string) string {
 		return "hang"
 	}
 	parts := []string{fmt.Sprintf("n=%d", len(ag.samples))}
-	for _, s := range ag.samples {
-		parts = append(parts, vh.HexS(s.Tags()))
+	for _, s := range ag.snaps {
+		parts = append(parts, vh.HexS(s.tags))
 	}
 	return strings.Join(parts, " ")
 }
